@@ -353,6 +353,14 @@ func crashCheck(img []byte, pre, post map[uint32]string, dropTimes, betweenCalls
 	})
 	for id, l := range pre {
 		if pl, ok := post[id]; ok && pl == l && !skip[id] {
+			if strings.Contains(l, " data=short") {
+				// the object's data already reached past the end of the file before this operation (the
+				// target of an earlier, interrupted compacting delete that is still in the table after a
+				// reload): it has no stored bytes to preserve — the placement hypothesis of the C09
+				// theorems (Placed.inFile) does not hold of it — and what a read of that range returns
+				// changes as soon as anything else is stored there
+				continue
+			}
 			// not being changed by the operation
 			if have[l] == 0 {
 				if g, ok := got[id]; ok {
